@@ -100,6 +100,17 @@ func describeSource(v ssa.Value, param ssa.Value) (conv, chain string) {
 			}
 		}
 	case *ssa.Call:
+		// a helper that is nothing but one recognised conversion of its single parameter
+		if cal := x.Call.StaticCallee(); cal != nil && isRepoFunc(cal) && len(cal.Params) == 1 && len(x.Call.Args) == 1 {
+			rets := returnsOf(cal)
+			if len(rets) == 1 && len(rets[0].Results) == 1 {
+				if conv, chain := describeSource(rets[0].Results[0], cal.Params[0]); conv != "?" && chain == "" {
+					if c2, arg := describeSource(x.Call.Args[0], param); c2 == "id" {
+						return conv, arg
+					}
+				}
+			}
+		}
 		if calleeName(x) == "time.Unix" && len(x.Call.Args) == 2 {
 			if z, ok := intConst(x.Call.Args[0]); ok && z == 0 {
 				if cv, ok := x.Call.Args[1].(*ssa.Convert); ok {
@@ -239,7 +250,7 @@ func runC19(w *World, r *Report) {
 		}
 		return m
 	}
-	r.rule("round-trip-field", "for every signed field F: domain→wire maps F to wire field W with conversion c, wire→domain maps W back to F with the inverse conversion", 27)
+	r.rule("round-trip-field", "for every signed field F: domain→wire maps F to wire field W with conversion c, wire→domain maps W back to F with the inverse conversion", 20)
 	check := func(label string, fields []string, toWire, toDom []mapEntry, domPrefix string) {
 		ws, dd := bySrc(toWire), byDst(toDom)
 		for _, f := range fields {
@@ -263,7 +274,7 @@ func runC19(w *World, r *Report) {
 	check("Vertex.Transaction", tFields, toWireV, toDomV, "Transaction.")
 	check("Transaction", tFields, toWireT, toDomT, "")
 
-	r.rule("nested-agrees-with-transformers", "the transaction mapping nested in the vertex mappers uses the same wire field and conversion as transformers (a transaction enters through one and leaves through the other)", 20)
+	r.rule("nested-agrees-with-transformers", "the transaction mapping nested in the vertex mappers uses the same wire field and conversion as transformers (a transaction enters through one and leaves through the other)", 14)
 	wsV, wsT := bySrc(toWireV), bySrc(toWireT)
 	ddV, ddT := byDst(toDomV), byDst(toDomT)
 	for _, f := range tFields {
@@ -314,7 +325,7 @@ func runC19(w *World, r *Report) {
 	}
 
 	// no extra unmapped wire field silently dropped is out of scope; but no domain field may receive a constant
-	r.rule("no-unknown-source", "every value stored into a mapped struct is a recognised conversion of a field of the input", 40)
+	r.rule("no-unknown-source", "every value stored into a mapped struct is a recognised conversion of a field of the input", 25)
 	for name, es := range map[string][]mapEntry{"vertex→wire": toWireV, "wire→vertex": toDomV, "trx→wire": toWireT, "wire→trx": toDomT} {
 		for _, e := range es {
 			r.check(e.conv != "?", "no-unknown-source", name+"/"+e.dst, e.pos, "recognised conversion", "stored value is "+e.src)
